@@ -25,10 +25,15 @@ decay of the plain central-difference error like h^2; derivative(x).is_linear,
 domain, range; linear operators are their own derivative.  Applied to the random trees (also
 with transcendental ufunc leaves) and to a zoo with every operator class that defines
 `derivative` (found by introspection, built from a constructor table), the functionals (every
-module-level Functional subclass must be instantiated or listed as having no gradient) and the
+module-level Functional subclass must be instantiated or listed as having no gradient), the
 ufunc functionals `odl.ufunc_ops.<name>()` on RealNumbers() for every ufunc, and to random
 FUNCTIONAL expressions (sum, product, quotient with a non-constant divisor away from 1,
-composition with operators / ufunc functionals, scalar and vector multiples).  NotImplementedError
+composition with operators / ufunc functionals, scalar and vector multiples; LINEAR functionals
+(QuadraticForm(vector), <., u>, ZeroFunctional, multiples and sums), made AFFINE by translation or
+an added constant, under every composite whose derivative short-cuts on is_linear).
+Oracle for the FLAG: every operator/functional the streams build (leaf or composite, and every
+derivative returned) that is flagged is_linear must map 0 to 0 and be additive and homogeneous
+(over the reals) on random points.  NotImplementedError
 from `derivative` counts as "no derivative provided" only where the zoo entry says so.
 """
 import math
@@ -390,8 +395,28 @@ def tokens(n):
     raise KeyError(k)
 
 
+BUILT = []
+
+
 def build(n):
-    """The real ODL operator of a spec, through the real constructors."""
+    """The real ODL operator of a spec, through the real constructors (every operator built,
+    leaf or composite, is recorded in BUILT for the linear-flag oracle)."""
+    op = _build(n)
+    BUILT.append(op)
+    return op
+
+
+def flag_problems_of_built():
+    out = []
+    for o in BUILT:
+        m = linear_flag_check(o)
+        if m:
+            out.append('sub-operator: ' + m)
+    del BUILT[:]
+    return out[:3]
+
+
+def _build(n):
     import odl
     k = n['k']
     S, T = n['dom'], n['ran']
@@ -670,6 +695,69 @@ def space_dim(sp):
     return int(sp.size) * (2 if getattr(sp, 'is_complex', False) else 1)
 
 
+def rand_elem(space, r):
+    """Random element (entries in +-[0.3, 2]) of an rn/cn/discretized/product space or field."""
+    import odl
+    if isinstance(space, odl.ProductSpace):
+        return space.element([rand_elem(sp, r) for sp in space])
+    if isinstance(space, odl.set.sets.Field):
+        v = r.uniform(0.3, 2.0) * r.choice([-1, 1])
+        if isinstance(space, odl.ComplexNumbers):
+            return complex(v, r.uniform(0.3, 2.0) * r.choice([-1, 1]))
+        return v
+    n = int(np.prod(space.shape)) if len(space.shape) else 1
+    a = np.array([r.uniform(0.3, 2.0) * r.choice([-1, 1]) for _ in range(n)])
+    if getattr(space, 'is_complex', False):
+        a = a + 1j * np.array([r.uniform(0.3, 2.0) * r.choice([-1, 1]) for _ in range(n)])
+    return space.element(a.reshape(space.shape))
+
+
+_FLAG_RNG = _random.Random(20260926)
+FLAG_CHECKS = [0]
+
+
+def linear_flag_check(op, rtol=1e-9):
+    """Oracle for the `is_linear` FLAG itself: an operator flagged linear must map 0 to 0 and be
+    additive and homogeneous (over the reals: the "C = R^2" convention of RealPart & co.) on random
+    points.  Returns a problem string or None; None too if the operator is not flagged linear."""
+    import odl
+    try:
+        if not op.is_linear:
+            return None
+    except Exception:  # noqa
+        return None
+    r = _FLAG_RNG
+    try:
+        dom = op.domain
+        x, y = rand_elem(dom, r), rand_elem(dom, r)
+        a, b = r.choice([2.5, -1.5, 0.5]), r.choice([-0.75, 2.0, 1.25])
+        with np.errstate(all='ignore'):
+            zero = dom.zero() if hasattr(dom, 'zero') else 0.0 * x
+            o0 = flat(op(zero))
+            lhs = flat(op(a * x + b * y))
+            ox, oy = flat(op(x)), flat(op(y))
+        FLAG_CHECKS[0] += 1
+    except NotImplementedError:
+        return None           # not evaluable (no _call)
+    except Exception as e:  # noqa
+        return 'operator flagged linear: evaluation for the linearity test raised {}: {}'.format(
+            type(e).__name__, str(e)[:160])
+    rhs = a * ox + b * oy
+    sc = max(float(np.max(np.abs(lhs))) if lhs.size else 0.0,
+             float(np.max(np.abs(ox))) if ox.size else 0.0,
+             float(np.max(np.abs(oy))) if oy.size else 0.0, 1e-300)
+    if not (np.all(np.isfinite(lhs)) and np.all(np.isfinite(rhs)) and np.all(np.isfinite(o0))):
+        return None
+    if o0.size and float(np.max(np.abs(o0))) > 1e-12 * max(sc, 1.0):
+        return ('is_linear is True but op(0) = {} != 0 (op = {!r})'.format(
+            np.array2string(o0[:4], precision=6), op))[:400]
+    if lhs.size and float(np.max(np.abs(lhs - rhs))) > rtol * sc:
+        return ('is_linear is True but op(a x + b y) = {} != a op(x) + b op(y) = {} (a={}, b={}, op = {!r})'
+                .format(np.array2string(lhs[:4], precision=8), np.array2string(rhs[:4], precision=8),
+                        a, b, op))[:500]
+    return None
+
+
 NOT_PROVIDED = ['<no derivative provided: NotImplementedError>']
 
 
@@ -677,19 +765,27 @@ def oracle_on(op, x, d, exact_linear=True, tol=1e-7, rate=True, allow_notimpl=Fa
     """All oracle checks of the property for one operator / base point / direction.
     Returns (problems, D, Dd)."""
     problems = []
+    msg = linear_flag_check(op)
+    if msg:
+        problems.append(msg)
     try:
         D = op.derivative(x)
     except NotImplementedError as e:
         if allow_notimpl:
-            return NOT_PROVIDED, None, None
-        return ['derivative(x) raised {}: {}'.format(type(e).__name__, str(e)[:200])], None, None
+            return (problems if problems else NOT_PROVIDED), None, None
+        return problems + ['derivative(x) raised {}: {}'.format(type(e).__name__, str(e)[:200])], None, None
     except Exception as e:  # noqa
-        return ['derivative(x) raised {}: {}'.format(type(e).__name__, str(e)[:200])], None, None
+        return problems + ['derivative(x) raised {}: {}'.format(type(e).__name__, str(e)[:200])], None, None
     if not hasattr(D, 'is_linear') or not callable(D):
         return ['derivative(x) returned {!r} ({}), not an operator'.format(D, type(D).__name__)[:300]], None, None
     try:
         if not D.is_linear:
             problems.append('derivative(x).is_linear is False')
+        else:
+            # (numerical estimates by design, checked with a loose `tol`, are linear to that accuracy only)
+            msg = linear_flag_check(D, rtol=1e-9 if tol <= 1e-6 else tol)
+            if msg:
+                problems.append('derivative(x): ' + msg)
         if D.domain != op.domain:
             problems.append('derivative(x).domain {!r} != op.domain {!r}'.format(D.domain, op.domain))
         if D.range != op.range:
@@ -761,14 +857,18 @@ def run_tree_case(c):
     """Run the real code on one exact-stream case. Returns (line, impl dict | error string, problems)."""
     spec = c['spec']
     line = 'deriv t={} x={} d={}'.format('|'.join(tokens(spec)), fl(c['x']), fl(c['d']))
+    del BUILT[:]
     try:
         op = build(spec)
     except Exception as e:  # noqa
         return line, 'err:construct {}: {}'.format(type(e).__name__, str(e)[:160]), \
             ['constructor raised {}: {}'.format(type(e).__name__, str(e)[:200])], None
+    BUILT.pop()                      # the top operator is checked by oracle_on
+    sub_flag = flag_problems_of_built()
     S = spec['dom']
     x, d = elem(S, c['x']), elem(S, c['d'])
     problems, D, Dd = oracle_on(op, x, d)
+    problems = sub_flag + problems
     try:
         val = flat(op(x))
         impl = {'lin': int(bool(op.is_linear)), 'dom': space_dim(op.domain), 'ran': space_dim(op.range),
@@ -939,10 +1039,15 @@ def gen_mixed(rng, S, T, depth):
 
 def run_mixed_case(c):
     spec = c['spec']
+    del BUILT[:]
     try:
         op = build(spec)
     except Exception as e:  # noqa
         return ['constructor raised {}: {}'.format(type(e).__name__, str(e)[:200])], False
+    BUILT.pop()
+    sub_flag = flag_problems_of_built()
+    if sub_flag:
+        return sub_flag, False
     S = spec['dom']
     x, d = elem(S, c['x']), elem(S, c['d'])
     try:
@@ -1018,9 +1123,64 @@ def _rv(rng, n, lo=0.3, hi=2.0):
     return [round(rng.uniform(lo, hi) * rng.choice([-1, 1]), 3) for _ in range(n)]
 
 
+def gen_linfun(rng, sp, depth):
+    """Spec of a functional FLAGGED LINEAR (linear leaves, scalar multiples, argument scalings,
+    right vector multiples and sums of them)."""
+    n = fspace(sp).size
+    if depth <= 0 or rng.random() < 0.35:
+        k = rng.choice(['linquad', 'linquad', 'linpert', 'linpert', 'zerofun'])
+        return [k] if k == 'zerofun' else [k, _rv(rng, n)]
+    k = rng.choice(['lscal', 'rscal', 'rvec', 'sum'])
+    if k == 'sum':
+        return ['sum', gen_linfun(rng, sp, depth - 1), gen_linfun(rng, sp, depth - 1)]
+    if k == 'rvec':
+        return ['rvec', gen_linfun(rng, sp, depth - 1), _rv(rng, n, 0.5, 1.5)]
+    return [k, gen_linfun(rng, sp, depth - 1), rng.choice([-1.5, 0.5, 2.0, 2.5])]
+
+
+def gen_affine(rng, sp, depth):
+    """Affine functionals made from linear ones: translation (x -> f(x) - f(t), f(t) != 0),
+    sums with constants, and linear operations on top of those."""
+    n = fspace(sp).size
+    base = gen_linfun(rng, sp, depth - 1)
+    k = rng.choice(['translate', 'translate', 'translate', 'scalarsum'])
+    f = ['translate', base, _rv(rng, n, 0.5, 2.0)] if k == 'translate' else \
+        ['scalarsum', base, round(rng.uniform(0.5, 3) * rng.choice([-1, 1]), 3)]
+    for _ in range(rng.choice([0, 0, 1, 2])):
+        w = rng.choice(['lscal', 'rscal', 'rvec', 'sumlin'])
+        if w == 'sumlin':
+            f = ['sum', f, gen_linfun(rng, sp, 1)]
+        elif w == 'rvec':
+            f = ['rvec', f, _rv(rng, n, 0.5, 1.5)]
+        else:
+            f = [w, f, rng.choice([-1.5, 0.5, 2.0, 2.5])]
+    return f
+
+
+WRAPS = ['flvec', 'comp_embed', 'opsum_inner', 'op_lscal', 'op_rscal', 'op_rvec', 'opsum_self']
+
+
+def gen_wrapped(rng, sp, depth):
+    """A (linear or affine) functional under a composite whose `derivative` short-cuts on
+    `is_linear` (OperatorLeftScalarMult, OperatorRightVectorMult, FunctionalLeftVectorMult,
+    OperatorComp, OperatorSum) or passes the flag on (OperatorRightScalarMult)."""
+    n = fspace(sp).size
+    inner = gen_affine(rng, sp, depth) if rng.random() < 0.7 else gen_linfun(rng, sp, depth)
+    w = rng.choice(WRAPS)
+    if w in ('flvec', 'comp_embed'):
+        return ['wrap', w, inner, _rv(rng, 4)]
+    if w in ('opsum_inner', 'op_rvec'):
+        return ['wrap', w, inner, _rv(rng, n, 0.5, 1.5)]
+    if w == 'opsum_self':
+        return ['wrap', w, inner, gen_linfun(rng, sp, 1)]
+    return ['wrap', w, inner, rng.choice([-1.5, 0.5, 2.0, 2.5])]
+
+
 def gen_fun(rng, sp, depth):
     """Spec (JSON-able list) of a random smooth functional on fspace(sp)."""
     n = fspace(sp).size
+    if depth >= 1 and rng.random() < 0.12:
+        return gen_affine(rng, sp, depth)
     if depth <= 0 or rng.random() < 0.2:
         k = rng.choice(['normsq', 'norm', 'normsq_t', 'norm_t', 'quad'])
         if k in ('normsq_t', 'norm_t'):
@@ -1052,6 +1212,12 @@ def gen_fun(rng, sp, depth):
 
 
 def build_fun(spec, sp):
+    f = _build_fun(spec, sp)
+    BUILT.append(f)
+    return f
+
+
+def _build_fun(spec, sp):
     import odl
     import odl.ufunc_ops as uo
     S = odl.solvers
@@ -1069,6 +1235,32 @@ def build_fun(spec, sp):
         return S.QuadraticForm(vector=X.element(spec[1]), constant=spec[2])
     if k == 'const':
         return S.ConstantFunctional(X, spec[1])
+    if k == 'linquad':
+        return S.QuadraticForm(vector=X.element(spec[1]))
+    if k == 'linpert':
+        return S.FunctionalQuadraticPerturb(S.ZeroFunctional(X), linear_term=X.element(spec[1]))
+    if k == 'zerofun':
+        return S.ZeroFunctional(X)
+    if k == 'translate':
+        return build_fun(spec[1], sp).translated(X.element(spec[2]))
+    if k == 'wrap':
+        f = build_fun(spec[2], sp)
+        w, arg = spec[1], spec[3]
+        if w == 'flvec':
+            return odl.FunctionalLeftVectorMult(f, odl.rn(4).element(arg))
+        if w == 'comp_embed':
+            return odl.OperatorComp(odl.MultiplyOperator(odl.rn(4).element(arg), domain=odl.RealNumbers()), f)
+        if w == 'opsum_inner':
+            return odl.OperatorSum(f, odl.InnerProductOperator(X.element(arg)))
+        if w == 'opsum_self':
+            return odl.OperatorSum(f, build_fun(arg, sp))
+        if w == 'op_lscal':
+            return odl.OperatorLeftScalarMult(f, arg)
+        if w == 'op_rscal':
+            return odl.OperatorRightScalarMult(f, arg)
+        if w == 'op_rvec':
+            return odl.OperatorRightVectorMult(f, X.element(arg))
+        raise KeyError(w)
     if k == 'sum':
         return build_fun(spec[1], sp) + build_fun(spec[2], sp)
     if k == 'prod':
@@ -1093,7 +1285,8 @@ def build_fun(spec, sp):
 
 def fun_kinds(spec, acc=None):
     acc = [] if acc is None else acc
-    acc.append(spec[0] if spec[0] != 'ufunc' else 'ufunc:' + spec[1])
+    acc.append('ufunc:' + spec[1] if spec[0] == 'ufunc' else
+               'wrap:' + spec[1] if spec[0] == 'wrap' else spec[0])
     for t in spec[1:]:
         if isinstance(t, list) and t and isinstance(t[0], str):
             fun_kinds(t, acc)
@@ -1103,10 +1296,13 @@ def fun_kinds(spec, acc=None):
 def run_fun_case(c):
     """problems (None = skipped as ill-conditioned), nontrivial, class name of the functional."""
     sp = c['space']
+    del BUILT[:]
     try:
         f = build_fun(c['spec'], sp)
     except Exception as e:  # noqa
         return ['constructing the functional raised {}: {}'.format(type(e).__name__, str(e)[:200])], False, '?'
+    BUILT.pop()
+    sub_flag = flag_problems_of_built()
     X = fspace(sp)
     x, d = X.element(c['x']), X.element(c['d'])
     try:
@@ -1123,6 +1319,7 @@ def run_fun_case(c):
         return ['f(x) raised {}: {}'.format(type(e).__name__, str(e)[:200])], False, type(f).__name__
     with np.errstate(all='ignore'):
         problems, D, Dd = oracle_on(f, x, d, exact_linear=False, tol=1e-7)
+    problems = problems + sub_flag      # the consequence for the derivative first, then the flag
     nontrivial = Dd is not None and bool(np.any(flat(Dd) != 0))
     ZOO_CLASSES_SEEN.add(type(f).__name__)
     return problems, nontrivial, type(f).__name__
@@ -1134,7 +1331,15 @@ def functional_stream(ctx, n_cases):
     while done < n_cases and tries < 20 * n_cases:
         tries += 1
         sp = rng.choice(FSPACES)
-        spec = gen_fun(rng, sp, rng.choice([1, 2, 2, 3]))
+        u = rng.random()
+        if u < 0.25:
+            spec = gen_wrapped(rng, sp, rng.choice([1, 2, 2]))
+        elif u < 0.35:
+            spec = gen_affine(rng, sp, rng.choice([1, 2]))
+        elif u < 0.40:
+            spec = gen_linfun(rng, sp, rng.choice([1, 2]))
+        else:
+            spec = gen_fun(rng, sp, rng.choice([1, 2, 2, 3]))
         n = fspace(sp).size
         c = {'kind': 'functional', 'space': sp, 'spec': spec, 'x': _rv(rng, n), 'd': _rv(rng, n, 0.2, 1.0)}
         problems, nontrivial, cls = run_fun_case(c)
@@ -1144,6 +1349,14 @@ def functional_stream(ctx, n_cases):
         ks = fun_kinds(spec)
         ctx.case(('functional', ks[0], tuple(sorted(set(ks)))) if nontrivial else None)
         ctx.hit('oracle/functional-tree/' + ks[0])
+        for kk in set(ks):
+            ctx.hit('oracle/functional-part/' + kk)
+        if 'translate' in ks and any(k in ks for k in ('linquad', 'linpert', 'zerofun')):
+            ctx.hit('oracle/functional-tree/translate-of-linear')
+            if ks[0].startswith('wrap:'):
+                ctx.hit('oracle/functional-tree/translate-of-linear-under-' + ks[0])
+        if 'scalarsum' in ks and any(k in ks for k in ('linquad', 'linpert', 'zerofun')):
+            ctx.hit('oracle/functional-tree/linear-plus-constant')
         if problems:
             ctx.violation('functional-tree top={} ({}) parts={} space={}'.format(
                 ks[0], cls, '+'.join(sorted(set(ks))), sp), '; '.join(problems)[:700], c)
@@ -1699,8 +1912,9 @@ def run(ctx):
     malformed_stream(ctx, 150 if quick else 1500)
     exact_stream(ctx, 1500 if quick else 20000)
     mixed_stream(ctx, 300 if quick else 4000)
-    functional_stream(ctx, 200 if quick else 3000)
+    functional_stream(ctx, 320 if quick else 3000)
     zoo_stream(ctx, 3 if quick else 25)
+    ctx.hit('oracle/linear-flag-checked', FLAG_CHECKS[0])
     if not quick:
         unhit = [b for b in EXPECTED_BRANCHES if b not in ctx.branches]
         ctx.extra['unhit_model_branches'] = unhit
@@ -1715,7 +1929,13 @@ EXPECTED_BRANCHES = ['model/' + b for b in [
     'lscal/linear-shortcut', 'lscal/rule', 'rscal', 'lvec/linear-shortcut', 'lvec/rule',
     'rvec/linear-shortcut', 'rvec/rule', 'pprod', 'pprod/functional', 'pprod/vector',
     'flvec/linear-shortcut', 'flvec/rule', 'bcast', 'reduce', 'diag', 'pso/linear-shortcut', 'pso/rule',
-    'cmodsq', 'realpart', 'imagpart', 'cembed', 'clscal/linear-shortcut', 'clscal/rule', 'crscal']]
+    'cmodsq', 'realpart', 'imagpart', 'cembed', 'clscal/linear-shortcut', 'clscal/rule', 'crscal']] + [
+    'oracle/functional-tree/' + b for b in
+    ['quot', 'prod', 'translate-of-linear', 'linear-plus-constant'] +
+    ['wrap:' + w for w in WRAPS] + ['translate-of-linear-under-wrap:' + w for w in WRAPS]] + [
+    'oracle/functional-part/' + b for b in ['linquad', 'linpert', 'zerofun', 'translate', 'scalarsum', 'rvec',
+                                            'lscal', 'rscal', 'sum', 'quot', 'prod', 'opcomp']] + [
+    'oracle/linear-flag-checked']
 
 
 def search(ctx, broken):
